@@ -84,6 +84,18 @@ claim("C17",
       "Trusted: python ast and re._parser; 'definitely consuming' summaries are a least fixed point over the parser methods.",
       "DESIGN.md §4 C17")
 
+claim("C14",
+      "sibling agreement and scope-wiring analysis over ast (argparse dests vs create_wrapper vs reads in "
+      "main_with_args, Scope parent chains per node constructor, BlockNode duck-type conformance against "
+      "NamespaceMixin and its documented parents, attrs merge targets, command-line merge keys, Scope contract)",
+      "Decides the wiring that makes equivalent spellings equivalent: every node's option/format scope is chained to "
+      "its container's scope and user values land on the node's own scope, clones get their own scopes, blocks alias "
+      "their parent's containers, YAML attrs are merged into the parser's attribute mapping, command-line options are "
+      "stored under the keys LibraryNode reads, and the three producers/consumers of the argument namespace agree. "
+      "Output equality itself is not executed. One known finding (block inside a class).",
+      "Trusted: python ast; documented parents taken from BlockNode's docstring.",
+      "DESIGN.md §4 C14")
+
 PENDING = "check not built yet in this session (fail-closed: not claimed until its rules run clean)"
-for _p in ["C01","C02","C03","C06","C08","C09","C10","C11","C14","C18"]:
+for _p in ["C01","C02","C03","C06","C08","C09","C10","C11","C18"]:
     na(_p, PENDING)
